@@ -66,16 +66,144 @@ pub struct K {
     pub records: Pat,
     /// `visit_code` answers None for these methods (ordinal of the offered method)
     pub code: Pat,
+    /// Per-member interests: entry j = what the visitor handed out for the j-th offered field / method / record component
+    /// answers from `interests()` where that differs from `bits` (None or a missing entry = the common mask `bits`).
+    /// `per_code[j]` = the CodeInterests of the Code visitor of the j-th offered method. Only the bits of the level
+    /// in question are looked at (the others are false).
+    pub per_field: Vec<Option<Bits>>,
+    pub per_method: Vec<Option<Bits>>,
+    pub per_code: Vec<Option<Bits>>,
+    pub per_record: Vec<Option<Bits>>,
+    /// how the per-member lists were drawn (for the coverage account only)
+    pub drawn: Vec<(Level, PerPat)>,
+}
+pub type Bits = [bool; NBITS];
+/// the member levels (those where a visitor answers `interests()` once per member)
+pub const MEMBER_LEVELS: [Level; 4] = [Level::Field, Level::Method, Level::Code, Level::Record];
+
+/// what the harness looks at of a class when it draws per-member masks (taken from the independent parser's model)
+#[derive(Clone, Debug, Default)]
+pub struct Shape { pub fields: usize, pub methods: usize, pub records: usize, pub has_code: Vec<bool> }
+
+/// how the masks of the members of one list differ from each other
+#[derive(Clone, Copy, PartialEq, Eq, Debug)]
+pub enum PerPat {
+    /// only the first / last member that gets to the level has its own mask
+    OnlyFirst, OnlyLast,
+    /// only the k-th offered member (any k, it may be a declined one)
+    Kth,
+    /// every second member (by ordinal, or by rank among the members that get to the level) has the other mask
+    Alternating,
+    /// all-off and all-on in turn along the members that get to the level
+    Staircase,
+    /// every member its own random mask
+    AllDifferent,
+    /// the first member that gets to the level has everything off, every other one everything on / the other way round
+    FirstOffLaterOn, FirstOnLaterOff,
+}
+pub const PER_PATS: [PerPat; 8] = [PerPat::FirstOffLaterOn, PerPat::OnlyFirst, PerPat::AllDifferent, PerPat::Staircase, PerPat::OnlyLast, PerPat::Alternating, PerPat::FirstOnLaterOff, PerPat::Kth];
+impl PerPat {
+    pub fn name(self) -> &'static str { match self { PerPat::OnlyFirst => "only_first", PerPat::OnlyLast => "only_last", PerPat::Kth => "kth", PerPat::Alternating => "alternating", PerPat::Staircase => "staircase",
+        PerPat::AllDifferent => "all_different", PerPat::FirstOffLaterOn => "first_off_later_on", PerPat::FirstOnLaterOff => "first_on_later_off" } }
+}
+fn level_fill(level: Level, v: bool) -> Bits { let mut b = [false; NBITS]; for i in 0..NBITS { if BITS[i].0 == level { b[i] = v; } } b }
+fn level_only(level: Level, src: &Bits) -> Bits { let mut b = [false; NBITS]; for i in 0..NBITS { if BITS[i].0 == level { b[i] = src[i]; } } b }
+fn level_random(rng: &mut Rng, level: Level, num: u32, den: u32) -> Bits { let mut b = [false; NBITS]; for i in 0..NBITS { if BITS[i].0 == level { b[i] = rng.chance(num, den); } } b }
+/// a mask for `level` that differs from `common` in at least one flag of that level
+fn level_other(rng: &mut Rng, level: Level, common: &Bits) -> Bits {
+    let idx: Vec<usize> = (0..NBITS).filter(|i| BITS[*i].0 == level).collect();
+    let mut b = match rng.below(6) {
+        0 => level_fill(level, false), 1 => level_fill(level, true),
+        2 => { let mut b = level_only(level, common); for i in &idx { b[*i] = !b[*i]; } b }                 // the complement
+        3 => { let mut b = level_only(level, common); let i = *rng.pick(&idx); b[i] = !b[i]; b }            // one flag flipped
+        4 => level_random(rng, level, 1, 4), _ => level_random(rng, level, 1, 2),
+    };
+    if idx.iter().all(|i| b[*i] == common[*i]) { for i in &idx { b[*i] = !b[*i]; } }
+    b
 }
 
 /// the kinds of deviation from the full-interest, accept-everything visitor (used to name the trigger of a problem)
-pub const CATEGORIES: [&str; 10] = ["class interest off", "field interest off", "method interest off", "code interest off", "record component interest off",
-    "declined class", "declined field", "declined method", "declined record component", "declined Code"];
+pub const CATEGORIES: [&str; 14] = ["class interest off", "field interest off", "method interest off", "code interest off", "record component interest off",
+    "declined class", "declined field", "declined method", "declined record component", "declined Code",
+    "per-member field interests", "per-member method interests", "per-member code interests", "per-member record component interests"];
+/// index of the first per-member category; category FIRST_PER + j belongs to MEMBER_LEVELS[j], whose "interest off" category is 1 + j
+pub const FIRST_PER: usize = 10;
 
 impl K {
-    pub fn all() -> K { K { bits: [true; NBITS], decline_class: false, fields: Pat::None, methods: Pat::None, records: Pat::None, code: Pat::None } }
+    pub fn all() -> K { K { bits: [true; NBITS], decline_class: false, fields: Pat::None, methods: Pat::None, records: Pat::None, code: Pat::None, per_field: vec![], per_method: vec![], per_code: vec![], per_record: vec![], drawn: vec![] } }
     pub fn none() -> K { K { bits: [false; NBITS], ..K::all() } }
+    /// the COMMON mask (what every member answers that has no mask of its own)
     pub fn on(&self, level: Level, name: &str) -> bool { self.bits[bit(level, name)] }
+    pub fn per(&self, level: Level) -> &[Option<Bits>] { match level { Level::Field => &self.per_field, Level::Method => &self.per_method, Level::Code => &self.per_code, Level::Record => &self.per_record, Level::Class => &[] } }
+    fn per_mut(&mut self, level: Level) -> &mut Vec<Option<Bits>> { match level { Level::Field => &mut self.per_field, Level::Method => &mut self.per_method, Level::Code => &mut self.per_code, _ => &mut self.per_record } }
+    /// flag `i` as answered by the member with ordinal `ordinal` (for Level::Code: by the Code visitor of the method with that ordinal)
+    pub fn bit_at(&self, ordinal: usize, i: usize) -> bool { match self.per(BITS[i].0).get(ordinal) { Some(Some(b)) => b[i], _ => self.bits[i] } }
+    pub fn on_at(&self, level: Level, ordinal: usize, name: &str) -> bool { self.bit_at(ordinal, bit(level, name)) }
+    pub fn has_per_member(&self) -> bool { MEMBER_LEVELS.iter().any(|l| self.per(*l).iter().any(|o| o.is_some())) }
+    /// do the members with ordinals a and b answer differently at `level`?
+    pub fn differ_at(&self, level: Level, a: usize, b: usize) -> bool { (0..NBITS).any(|i| BITS[i].0 == level && self.bit_at(a, i) != self.bit_at(b, i)) }
+
+    /// which members get to `level` under this mask: accepted, and for Code: Code present, of interest to that method's visitor, not refused
+    pub fn reach(&self, level: Level, shape: &Shape) -> Vec<bool> {
+        match level {
+            Level::Field => self.fields.expand(shape.fields).iter().map(|d| !*d).collect(),
+            Level::Record => self.records.expand(shape.records).iter().map(|d| !*d && self.on(Level::Class, "record")).collect(),
+            Level::Method => self.methods.expand(shape.methods).iter().map(|d| !*d).collect(),
+            Level::Code => { let dm = self.methods.expand(shape.methods); let dc = self.code.expand(shape.methods); let cb = bit(Level::Method, "code");
+                (0..shape.methods).map(|j| !dm[j] && !dc[j] && shape.has_code.get(j).copied().unwrap_or(false) && self.bit_at(j, cb)).collect() }
+            Level::Class => vec![],
+        }
+    }
+    /// gives the members of one list their own masks after pattern `pat` (replaces what was there for that level)
+    pub fn set_per(&mut self, rng: &mut Rng, level: Level, pat: PerPat, shape: &Shape) {
+        let n = match level { Level::Field => shape.fields, Level::Record => shape.records, _ => shape.methods };
+        let reach = self.reach(level, shape);
+        let reaching: Vec<usize> = (0..n).filter(|j| reach[*j]).collect();
+        let rank = |j: usize| reaching.iter().position(|x| *x == j);
+        let common = self.bits;
+        let mut list: Vec<Option<Bits>> = vec![None; n];
+        match pat {
+            PerPat::OnlyFirst => { if let Some(j) = reaching.first().or(if n > 0 { Some(&0) } else { None }) { list[*j] = Some(level_other(rng, level, &common)); } }
+            PerPat::OnlyLast => { if let Some(j) = reaching.last().copied().or(n.checked_sub(1)) { list[j] = Some(level_other(rng, level, &common)); } }
+            PerPat::Kth => { if n > 0 { let j = rng.below(n); list[j] = Some(level_other(rng, level, &common)); } }
+            PerPat::Alternating => { let other = level_other(rng, level, &common); let phase = rng.below(2); let by_rank = rng.bool();
+                for j in 0..n { let x = if by_rank { rank(j).unwrap_or(j) } else { j }; if x % 2 == phase { list[j] = Some(other); } } }
+            PerPat::Staircase => { let phase = rng.below(2); for j in 0..n { let x = rank(j).unwrap_or(j); list[j] = Some(level_fill(level, x % 2 != phase)); } }
+            PerPat::AllDifferent => { for j in 0..n { let (num, den) = *rng.pick(&[(1u32, 8u32), (1, 2), (1, 2), (7, 8)]); list[j] = Some(level_random(rng, level, num, den)); } }
+            PerPat::FirstOffLaterOn | PerPat::FirstOnLaterOff => { let first_on = pat == PerPat::FirstOnLaterOff; let first = reaching.first().copied().unwrap_or(0);
+                for j in 0..n { list[j] = Some(level_fill(level, if j == first { first_on } else { !first_on })); } }
+        }
+        *self.per_mut(level) = list;
+        self.drawn.retain(|d| d.0 != level); self.drawn.push((level, pat));
+    }
+    /// The plainest visitors that answer differently per member at `level`: full interest everywhere, everything accepted, and along the
+    /// members that get to `level`: 0 = the first one nothing, the others everything; 1, 2 = nothing / everything in turn (both phases).
+    pub fn probe(level: Level, kind: usize, shape: &Shape) -> K {
+        let mut k = K::all();
+        let reach = k.reach(level, shape);
+        let mut rank = 0usize;
+        let list: Vec<Option<Bits>> = reach.iter().map(|r| { let x = rank; if *r { rank += 1; } Some(level_fill(level, if !*r { true } else if kind == 0 { x != 0 } else { x % 2 != kind - 1 })) }).collect();
+        *k.per_mut(level) = list;
+        k
+    }
+    /// K::random, and in one case of three per-member masks on some of the member levels
+    pub fn random_pm(rng: &mut Rng, shape: &Shape) -> K {
+        let mut k = K::random(rng);
+        if rng.chance(1, 3) { k.overlay_per(rng, shape); }
+        k
+    }
+    /// per-member masks (random pattern) on a random non-empty choice of the member levels; methods before Code, whose reach depends on them
+    pub fn overlay_per(&mut self, rng: &mut Rng, shape: &Shape) {
+        // only lists that have members (two or more where the class has such a list)
+        let n = [shape.fields, shape.methods, shape.has_code.iter().filter(|c| **c).count(), shape.records];
+        let least = if n.iter().any(|x| *x >= 2) { 2 } else { 1 };
+        let mut pick: Vec<bool> = (0..4).map(|j| rng.bool() && n[j] >= least).collect();
+        let cand: Vec<usize> = (0..4).filter(|j| n[*j] >= least).collect();
+        if cand.is_empty() { return; }
+        if !pick.iter().any(|x| *x) { pick[*rng.pick(&cand)] = true; }
+        for (j, level) in MEMBER_LEVELS.iter().enumerate() { if pick[j] { let pat = *rng.pick(&PER_PATS); self.set_per(rng, *level, pat, shape); } }
+        if pick[3] && rng.chance(3, 4) { self.bits[bit(Level::Class, "record")] = true; }
+    }
     pub fn random(rng: &mut Rng) -> K {
         let mut k = K::all();
         // density of interest differs per level so that "everything off below an accepted member" and "almost everything on" both occur
@@ -104,51 +232,33 @@ impl K {
                 nest_host: b(Level::Class, "nest_host"), nest_members: b(Level::Class, "nest_members"), permitted_subclasses: b(Level::Class, "permitted_subclasses"),
                 record: b(Level::Class, "record"), unknown_attributes: b(Level::Class, "unknown_attributes"), fields: b(Level::Class, "fields"), methods: b(Level::Class, "methods"),
             },
-            field: FieldInterests {
-                constant_value: b(Level::Field, "constant_value"), signature: b(Level::Field, "signature"),
-                runtime_visible_annotations: b(Level::Field, "runtime_visible_annotations"), runtime_invisible_annotations: b(Level::Field, "runtime_invisible_annotations"),
-                runtime_visible_type_annotations: b(Level::Field, "runtime_visible_type_annotations"), runtime_invisible_type_annotations: b(Level::Field, "runtime_invisible_type_annotations"),
-                unknown_attributes: b(Level::Field, "unknown_attributes"),
-            },
+            field: field_interests(&self.bits),
             method: self.method_interests(),
             code: self.code_mask(),
-            record_component: RecordComponentInterests {
-                signature: b(Level::Record, "signature"),
-                runtime_visible_annotations: b(Level::Record, "runtime_visible_annotations"), runtime_invisible_annotations: b(Level::Record, "runtime_invisible_annotations"),
-                runtime_visible_type_annotations: b(Level::Record, "runtime_visible_type_annotations"), runtime_invisible_type_annotations: b(Level::Record, "runtime_invisible_type_annotations"),
-                unknown_attributes: b(Level::Record, "unknown_attributes"),
-            },
+            record_component: record_interests(&self.bits),
             decline_class: self.decline_class,
             decline_fields: self.fields.expand(n_fields),
             decline_methods: self.methods.expand(n_methods),
             decline_record_components: self.records.expand(n_records),
             decline_code: self.code.expand(n_methods),
-            ..Mask::default()
+            field_overrides: self.per_field.iter().map(|o| o.as_ref().map(field_interests)).collect(),
+            method_overrides: self.method_overrides(),
+            code_overrides: self.code_overrides(),
+            record_component_overrides: self.per_record.iter().map(|o| o.as_ref().map(record_interests)).collect(),
         }
     }
-    pub fn method_interests(&self) -> MethodInterests {
-        let b = |n: &str| self.on(Level::Method, n);
-        MethodInterests {
-            code: b("code"), exceptions: b("exceptions"), signature: b("signature"),
-            runtime_visible_annotations: b("runtime_visible_annotations"), runtime_invisible_annotations: b("runtime_invisible_annotations"),
-            runtime_visible_type_annotations: b("runtime_visible_type_annotations"), runtime_invisible_type_annotations: b("runtime_invisible_type_annotations"),
-            runtime_visible_parameter_annotations: b("runtime_visible_parameter_annotations"), runtime_invisible_parameter_annotations: b("runtime_invisible_parameter_annotations"),
-            annotation_default: b("annotation_default"), method_parameters: b("method_parameters"), unknown_attributes: b("unknown_attributes"),
-        }
-    }
-    pub fn code_mask(&self) -> CodeMask {
-        let b = |n: &str| self.on(Level::Code, n);
-        CodeMask {
-            stack_map_table: b("stack_map_table"), line_number_table: b("line_number_table"), local_variable_table: b("local_variable_table"), local_variable_type_table: b("local_variable_type_table"),
-            runtime_visible_type_annotations: b("runtime_visible_type_annotations"), runtime_invisible_type_annotations: b("runtime_invisible_type_annotations"), unknown_attributes: b("unknown_attributes"),
-        }
-    }
+    pub fn method_interests(&self) -> MethodInterests { method_interests(&self.bits) }
+    pub fn code_mask(&self) -> CodeMask { code_mask(&self.bits) }
+    pub fn method_overrides(&self) -> Vec<Option<MethodInterests>> { self.per_method.iter().map(|o| o.as_ref().map(method_interests)).collect() }
+    pub fn code_overrides(&self) -> Vec<Option<CodeMask>> { self.per_code.iter().map(|o| o.as_ref().map(code_mask)).collect() }
+
     /// is deviation category `c` (index into CATEGORIES) present in this mask?
     pub fn has_category(&self, c: usize) -> bool {
         let level_off = |l: Level| (0..NBITS).any(|i| BITS[i].0 == l && !self.bits[i]);
         match c {
             0 => level_off(Level::Class), 1 => level_off(Level::Field), 2 => level_off(Level::Method), 3 => level_off(Level::Code), 4 => level_off(Level::Record),
-            5 => self.decline_class, 6 => self.fields != Pat::None, 7 => self.methods != Pat::None, 8 => self.records != Pat::None, _ => self.code != Pat::None,
+            5 => self.decline_class, 6 => self.fields != Pat::None, 7 => self.methods != Pat::None, 8 => self.records != Pat::None, 9 => self.code != Pat::None,
+            _ => self.per(MEMBER_LEVELS[c - FIRST_PER]).iter().any(|o| o.is_some()),
         }
     }
     /// the same mask with deviation category `c` removed
@@ -157,13 +267,83 @@ impl K {
         let level_on = |k: &mut K, l: Level| for i in 0..NBITS { if BITS[i].0 == l { k.bits[i] = true; } };
         match c {
             0 => level_on(&mut k, Level::Class), 1 => level_on(&mut k, Level::Field), 2 => level_on(&mut k, Level::Method), 3 => level_on(&mut k, Level::Code), 4 => level_on(&mut k, Level::Record),
-            5 => k.decline_class = false, 6 => k.fields = Pat::None, 7 => k.methods = Pat::None, 8 => k.records = Pat::None, _ => k.code = Pat::None,
+            5 => k.decline_class = false, 6 => k.fields = Pat::None, 7 => k.methods = Pat::None, 8 => k.records = Pat::None, 9 => k.code = Pat::None,
+            _ => k.per_mut(MEMBER_LEVELS[c - FIRST_PER]).clear(),
         }
         k
     }
+    /// The ways of removing deviation category `c`, to be tried in this order. For a per-member category: every member the
+    /// common mask; then, for every distinct mask some member has, every member THAT mask (a problem that persists under one
+    /// of these constant masks does not need per-member answers, it is a problem of that constant mask).
+    pub fn reductions(&self, c: usize) -> Vec<K> {
+        let mut out = vec![self.without_category(c)];
+        if c >= FIRST_PER {
+            let level = MEMBER_LEVELS[c - FIRST_PER];
+            let mut seen: Vec<Bits> = vec![];
+            for b in self.per(level).iter().flatten() {
+                if seen.contains(b) { continue; }
+                seen.push(*b);
+                let mut k = self.without_category(c);
+                for i in 0..NBITS { if BITS[i].0 == level { k.bits[i] = b[i]; } }
+                out.push(k);
+            }
+        }
+        out
+    }
+    /// the same mask with the own mask of member `ordinal` at `level` removed (that member answers the common mask)
+    pub fn without_member_mask(&self, level: Level, ordinal: usize) -> K { let mut k = self.clone(); if let Some(x) = k.per_mut(level).get_mut(ordinal) { *x = None; } k }
     pub fn to_json(&self) -> serde_json::Value {
         let off: Vec<String> = (0..NBITS).filter(|i| !self.bits[*i]).map(bit_name).collect();
-        serde_json::json!({"interest_off": off, "decline_class": self.decline_class, "decline_fields": self.fields.to_json(), "decline_methods": self.methods.to_json(),
-            "decline_record_components": self.records.to_json(), "decline_code": self.code.to_json()})
+        let mut j = serde_json::json!({"interest_off": off, "decline_class": self.decline_class, "decline_fields": self.fields.to_json(), "decline_methods": self.methods.to_json(),
+            "decline_record_components": self.records.to_json(), "decline_code": self.code.to_json()});
+        // per-member masks: per ordinal "common" or the flags of that level that are off for this member
+        let mut per = serde_json::Map::new();
+        for level in MEMBER_LEVELS {
+            let list = self.per(level);
+            if list.iter().all(|o| o.is_none()) { continue; }
+            let v: Vec<serde_json::Value> = list.iter().map(|o| match o {
+                None => serde_json::json!("common"),
+                Some(b) => serde_json::json!({"off": (0..NBITS).filter(|i| BITS[*i].0 == level && !b[*i]).map(|i| BITS[i].1).collect::<Vec<_>>()}),
+            }).collect();
+            per.insert(format!("{}_by_ordinal", level.name()), serde_json::Value::Array(v));
+        }
+        if !per.is_empty() { j["per_member_interests"] = serde_json::Value::Object(per); }
+        j
+    }
+}
+
+pub fn field_interests(b: &Bits) -> FieldInterests {
+    let b = |n: &str| b[bit(Level::Field, n)];
+    FieldInterests {
+        constant_value: b("constant_value"), signature: b("signature"),
+        runtime_visible_annotations: b("runtime_visible_annotations"), runtime_invisible_annotations: b("runtime_invisible_annotations"),
+        runtime_visible_type_annotations: b("runtime_visible_type_annotations"), runtime_invisible_type_annotations: b("runtime_invisible_type_annotations"),
+        unknown_attributes: b("unknown_attributes"),
+    }
+}
+pub fn record_interests(b: &Bits) -> RecordComponentInterests {
+    let b = |n: &str| b[bit(Level::Record, n)];
+    RecordComponentInterests {
+        signature: b("signature"),
+        runtime_visible_annotations: b("runtime_visible_annotations"), runtime_invisible_annotations: b("runtime_invisible_annotations"),
+        runtime_visible_type_annotations: b("runtime_visible_type_annotations"), runtime_invisible_type_annotations: b("runtime_invisible_type_annotations"),
+        unknown_attributes: b("unknown_attributes"),
+    }
+}
+pub fn method_interests(b: &Bits) -> MethodInterests {
+    let b = |n: &str| b[bit(Level::Method, n)];
+    MethodInterests {
+        code: b("code"), exceptions: b("exceptions"), signature: b("signature"),
+        runtime_visible_annotations: b("runtime_visible_annotations"), runtime_invisible_annotations: b("runtime_invisible_annotations"),
+        runtime_visible_type_annotations: b("runtime_visible_type_annotations"), runtime_invisible_type_annotations: b("runtime_invisible_type_annotations"),
+        runtime_visible_parameter_annotations: b("runtime_visible_parameter_annotations"), runtime_invisible_parameter_annotations: b("runtime_invisible_parameter_annotations"),
+        annotation_default: b("annotation_default"), method_parameters: b("method_parameters"), unknown_attributes: b("unknown_attributes"),
+    }
+}
+pub fn code_mask(b: &Bits) -> CodeMask {
+    let b = |n: &str| b[bit(Level::Code, n)];
+    CodeMask {
+        stack_map_table: b("stack_map_table"), line_number_table: b("line_number_table"), local_variable_table: b("local_variable_table"), local_variable_type_table: b("local_variable_type_table"),
+        runtime_visible_type_annotations: b("runtime_visible_type_annotations"), runtime_invisible_type_annotations: b("runtime_invisible_type_annotations"), unknown_attributes: b("unknown_attributes"),
     }
 }
